@@ -32,11 +32,11 @@ BASE_WEIGHTS = {
     "gc": 5, "drop": 3, "close_reopen": 4, "reopen_same": 2, "save_as": 1, "list": 3, "lookup": 3, "observe": 2,
 }
 PROFILES = {
-    "C01": {"geo_image": 2},
+    "C01": {"geo_image": 2, "mk_dup": 2},
     "C02": {"rm_parent": 6, "rm_ws": 8, "set_flag": 6, "move": 7, "copy": 8, "close_reopen": 6, "move_data": 6, "copy_extent": 5, "pg_add": 6},
     "C05": {"add_comment": 5, "add_file": 3, "rm_ws": 12, "rm_parent": 9, "pg_add": 8, "pg_rm": 4, "pg_new": 5, "lookup": 6, "copy": 4, "set_flag": 5},
     "C06": {"mk_dup": 8, "copy": 10, "rm_ws": 6, "rm_parent": 5, "lookup": 4},
-    "C09": {"observe": 4, "list": 4, "type_edit": 6, "retype": 8, "copy": 10, "pg_add": 7, "add_data": 14, "geo_image": 4, "add_file": 3},
+    "C09": {"observe": 4, "list": 4, "type_edit": 6, "retype": 8, "copy": 10, "pg_add": 7, "add_data": 14, "geo_image": 4, "add_file": 3, "mk_dup": 5},
     "C12": {"copy": 16, "set_values": 7, "rename": 6, "set_meta": 6, "pg_add": 6, "copy_extent": 6, "pg_new": 3, "geo_image": 3},
 }
 
@@ -1097,6 +1097,7 @@ class World:
             model.zombies[g]["gc_at_removal"] = self.gc_events()
             # (kept after the identifier is re-used: a removal through the parent leaves the node in the file -- known finding)
             model.__dict__.setdefault("removed_entry", {})[g] = entry
+            model.__dict__.setdefault("removed_root", {})[g] = uid
         self.sim.probe("rm_" + entry)
         return gone
 
@@ -1678,7 +1679,7 @@ class World:
         model = self.h[h].model
         choice = rng.choice(["live_same", "live_other", "removed", "pg", "fresh", "root"])
         return {"mode": choice, "pick": rng.randrange(1000), "as": rng.choice(["group", "object", "data", "pg"]),
-                "t": self.target(rng, h, "container"), "o": self.target(rng, h, "object", lambda r: not r.get("concat"))}
+                "t": self.target(rng, h, "container"), "o": self.target(rng, h, "object", lambda r: not r.get("concat")), "same_owner": rng.random() < 0.5}
 
     def do_mk_dup(self, op):
         from geoh5py import groups, objects
@@ -1709,6 +1710,9 @@ class World:
         obj_uid = self.resolve(h, op["o"], lambda r: not r.get("concat"))
         ws = self.h[h].ws
         if kind in ("data", "pg"):
+            if op.get("same_owner") and the_uid in model.pgs() and not model.recs[model.pgs()[the_uid][0]].get("concat"):
+                obj_uid = model.pgs()[the_uid][0]       # the object that already owns the group with this identifier
+                self.sim.probe("dup_pg_uid_on_its_owner")
             if obj_uid is None:
                 return "skipped"
             holder_uid = obj_uid
@@ -1724,6 +1728,7 @@ class World:
             fn = lambda: objects.Points.create(ws, name="dup", parent=holder, vertices=np.zeros((2, 3)), uid=uid_obj(the_uid))
         elif kind == "pg":
             pg_before = sorted(model.recs[holder_uid]["pgs"])
+            self.touch_pg(h, holder_uid)
             fn = lambda: holder.create_property_group(name=f"dup{op['id']}", uid=uid_obj(the_uid))
         else:
             fn = lambda: holder.add_data({f"dup{op['id']}": {"values": np.array([1.0]), "association": "OBJECT", "uid": uid_obj(the_uid)}})
